@@ -73,6 +73,7 @@ CONSTANTS
     RestartResizes, \* TRUE: Restart may come up with any size of MemSizes; FALSE: same size
     IgnoreModes,  \* subset of BOOLEAN: values SetConf may give `ign'
     AnonModes,    \* subset of BOOLEAN: values SetConf may give conf.AnonymizeClientIP
+    MaxFlight,    \* how many Adds may be between taking the time and pushing (0: Add is one step)
     Faults,       \* explore write faults during a flush (AppFails, AutoFlushFails)
     AllowWindow,  \* explore records inside the excluded flush-pending window
     EmitEdges     \* print labelled edges and per-state observation tables (direction A)
@@ -86,15 +87,16 @@ VARIABLES
     enabled, anon,   \* conf.Enabled, conf.AnonymizeClientIP (changed by SetConf)
     ign,             \* conf.Ignored contains IgnName (changed by SetConf)
     clock,           \* number of Record calls so far
+    flight,          \* Adds that have taken their timestamp and not yet pushed their entry
     pal,             \* palette of the behaviour (only meaningful when Palettes # {})
     recorded,        \* ghost: the statement's "recorded and not legitimately removed"
     inScope,         \* ghost: no record was submitted inside the excluded window
     lastReply        \* output of the last Search (hidden by VIEW)
 
-vars  == <<mem, cur, rot, batch, flushPending, memSize, fileEnabled, enabled, anon, ign, clock, pal,
+vars  == <<mem, cur, rot, batch, flushPending, memSize, fileEnabled, enabled, anon, ign, clock, pal, flight,
            recorded, inScope, lastReply>>
 \* lastReply is output only: hide it so that Search does not multiply states.
-View  == <<mem, cur, rot, batch, flushPending, memSize, fileEnabled, enabled, anon, ign, clock, pal,
+View  == <<mem, cur, rot, batch, flushPending, memSize, fileEnabled, enabled, anon, ign, clock, pal, flight,
            recorded, inScope>>
 
 -----------------------------------------------------------------------------
@@ -231,9 +233,17 @@ Min2(a, b) == IF a < b THEN a ELSE b
 -----------------------------------------------------------------------------
 (* The log as the API should present it.                                    *)
 
-Log       == rot \o cur \o mem          \* everything stored, oldest first
+(* Several requests are recorded at the same time (one goroutine each), so  *)
+(* the entries need not be stored in the order of their timestamps (see     *)
+(* Stamp / Push).  What the statement fixes is the order of the *replies*:  *)
+(* newest first by the timestamps the entries carry.  Log is therefore the  *)
+(* stored entries in timestamp order; RawLog is the order of storage.       *)
+RawLog    == rot \o cur \o mem
+TsSorted(s) == \A i \in 1..(Len(s) - 1) : s[i].ts < s[i + 1].ts
+Log       == IF MaxFlight = 0 THEN RawLog
+             ELSE LET r == RawLog IN IF TsSorted(r) THEN r ELSE SortSeq(r, LAMBDA a, b : a.ts < b.ts)
 Ids(s)    == [i \in DOMAIN s |-> s[i].ts]
-Quiescent == batch = <<>> /\ ~flushPending
+Quiescent == batch = <<>> /\ ~flushPending /\ flight = <<>>
 
 (* The list of ignored host names (conf.Ignored) can be changed at run time. *)
 (* Entries of a name that is ignored *now* are hidden from every reply,     *)
@@ -366,6 +376,25 @@ FoldSigApplies(p) == \E i \in DOMAIN Log : FoldMissed(p, Log[i])
 FoldLog(p)        == SelectSeq(Log, LAMBDA e : ~FoldMissed(p, e))
 FoldSigReply(p)   == Reply(p, FoldLog(p))
 
+(* Signatures of known finding C07:concurrent-add-inverts-timestamp-order.   *)
+(* They apply only when the entries are stored out of timestamp order.       *)
+(* "inv": the reply of the code's merge, which takes the stored order for the *)
+(* time order -- matching entries in reverse order of storage, cut to        *)
+(* offset+limit, *then* sorted by time, then the offset dropped.  "invdisk": *)
+(* a cursor request when the disorder is on disk, where the binary search    *)
+(* for the cursor may go either way; the signature is the selected sequence  *)
+(* (any reply that draws from it, typically an empty page saying "end").     *)
+RawSel(p) == SelectSeq(Reverse(RawLog), LAMBDA e : Matches(p, e) /\ OlderOK(p.older, e))
+InvMechReply(p) ==
+    LET cut == Cut(RawSel(p), 0, p.offset + p.limit)
+        srt == Reverse(SortSeq(cut, LAMBDA a, b : a.ts < b.ts))
+        pg  == IF p.offset >= Len(srt) THEN <<>> ELSE SubSeq(srt, p.offset + 1, Len(srt))
+    IN OkReply(pg)
+InvSigs(p) ==
+    IF MaxFlight = 0 \/ TsSorted(RawLog) THEN <<>>
+    ELSE << <<"inv", InvMechReply(p).data, InvMechReply(p).oldest>> >>
+         \o (IF p.older # 0 /\ ~TsSorted(Disk) THEN << <<"invdisk", Ids(Sel(p, Log)), 0>> >> ELSE <<>>)
+
 (* Signature of known finding C07:scan-window-ending-on-hidden-record-ends-paging: *)
 (* a request whose scan window ends on a hidden on-disk record answers      *)
 (* "end" although selected entries are still to come.  The signature names  *)
@@ -400,7 +429,7 @@ Init ==
     /\ (memSize = 0 => fileEnabled)    \* MemSize 0 without a file stores nothing at all
     /\ enabled = TRUE /\ anon = FALSE /\ ign = FALSE /\ clock = 0
     /\ pal \in (IF Palettes = {} THEN {0} ELSE Palettes)
-    /\ recorded = <<>> /\ inScope = TRUE
+    /\ recorded = <<>> /\ inScope = TRUE /\ flight = <<>>
     /\ lastReply = [st |-> "none"]
     \* Direction A: hand the vocabulary tables to the harness, which binds
     \* them to its concrete strings before it runs anything.
@@ -411,7 +440,7 @@ Init ==
 Pushed(e) == IF Len(mem) < Cap THEN Append(mem, e) ELSE Append(Tail(mem), e)
 
 RecordE(name, cli, reason) ==
-    /\ clock < MaxRec
+    /\ clock < MaxRec /\ flight = <<>>
     /\ AllowWindow \/ ~flushPending
     /\ clock' = clock + 1
     /\ IF ~enabled
@@ -425,7 +454,56 @@ RecordE(name, cli, reason) ==
                        IF fileEnabled \/ Len(mem) < Cap THEN Append(recorded, e)
                        \* No file: the ring is the whole log and evicts by design.
                        ELSE Append(SelectSeq(recorded, LAMBDA x : x.ts # mem[1].ts), e)
-    /\ UNCHANGED <<cur, rot, batch, memSize, fileEnabled, enabled, anon, ign, pal, lastReply>>
+    /\ UNCHANGED <<cur, rot, batch, memSize, fileEnabled, enabled, anon, ign, pal, flight, lastReply>>
+
+(* Recording by concurrent requests.  Add takes the time of the entry, packs *)
+(* the answers, and then takes the buffer lock and pushes the entry; another *)
+(* request can do all of that in between.  Stamp is the first part, Push the *)
+(* second, and up to MaxFlight Adds are between the two.  Every Stamp and    *)
+(* every Push is a tick of the clock.  Which tick the stored entry carries   *)
+(* is left open: the one of its Stamp (the time is read first, as the code   *)
+(* does) or the one of its Push (the time is read under the lock) -- the     *)
+(* statement only speaks about the timestamps the entries end up with.  The  *)
+(* configuration is read at the Stamp (a disabled log records nothing); the  *)
+(* flush is requested at the Push.  While Adds are in flight nothing else    *)
+(* happens: the histories explored are bursts of overlapping Adds between    *)
+(* quiescent points.                                                         *)
+Stamp(name, cli, reason) ==
+    /\ clock < MaxRec /\ Len(flight) < MaxFlight /\ ~flushPending /\ batch = <<>>
+    /\ clock' = clock + 1
+    /\ flight' = IF enabled
+                 THEN Append(flight, [tick |-> clock + 1, name |-> name, cli |-> cli, reason |-> reason])
+                 ELSE flight
+    /\ UNCHANGED <<mem, cur, rot, batch, flushPending, memSize, fileEnabled, enabled, anon, ign, pal,
+                   recorded, inScope, lastReply>>
+
+Push(i) ==
+    /\ i \in DOMAIN flight /\ clock < MaxRec /\ ~flushPending
+    /\ clock' = clock + 1
+    /\ flight' = [j \in 1..(Len(flight) - 1) |-> IF j < i THEN flight[j] ELSE flight[j + 1]]
+    /\ \E t \in {flight[i].tick, clock + 1} :
+          LET e == [ts |-> 2 * t, name |-> flight[i].name, cli |-> flight[i].cli, reason |-> flight[i].reason]
+          IN /\ mem' = Pushed(e)
+             /\ flushPending' = (fileEnabled /\ Len(mem') >= memSize)
+             /\ recorded' =
+                   IF fileEnabled \/ Len(mem) < Cap THEN Append(recorded, e)
+                   ELSE Append(SelectSeq(recorded, LAMBDA x : x.ts # mem[1].ts), e)
+    /\ UNCHANGED <<cur, rot, batch, memSize, fileEnabled, enabled, anon, ign, pal, inScope, lastReply>>
+
+(* A burst of n overlapping Adds of the same kind, seen after the fact: the  *)
+(* entries in the order they were pushed, tss their timestamps (the ticks of *)
+(* the burst in any order).  Used by the trace spec for free-running         *)
+(* concurrent recording.                                                     *)
+Burst(tss, name, cli, reason) ==
+    LET n == Len(tss)
+    IN /\ enabled /\ fileEnabled /\ ~flushPending /\ n >= 1 /\ flight = <<>>
+       /\ Len(mem) + n < memSize /\ clock + n <= MaxRec
+       /\ {tss[i] : i \in 1..n} = {2 * (clock + i) : i \in 1..n}
+       /\ LET new == [i \in 1..n |-> [ts |-> tss[i], name |-> name, cli |-> cli, reason |-> reason]]
+          IN mem' = mem \o new /\ recorded' = recorded \o new
+       /\ clock' = clock + n
+       /\ UNCHANGED <<cur, rot, batch, flushPending, memSize, fileEnabled, enabled, anon, ign, pal, flight,
+                      inScope, lastReply>>
 
 (* n Adds of the same kind in a row that do not fill the ring (so none of   *)
 (* them requests a flush): shorthand for the trace spec, which would        *)
@@ -436,7 +514,7 @@ RecordMany(n, name, cli, reason) ==
     /\ LET new == [i \in 1..n |-> [ts |-> 2 * (clock + i), name |-> name, cli |-> cli, reason |-> reason]]
        IN mem' = mem \o new /\ recorded' = recorded \o new
     /\ clock' = clock + n
-    /\ UNCHANGED <<cur, rot, batch, flushPending, memSize, fileEnabled, enabled, anon, ign, pal, inScope, lastReply>>
+    /\ UNCHANGED <<cur, rot, batch, flushPending, memSize, fileEnabled, enabled, anon, ign, pal, flight, inScope, lastReply>>
 
 KindChoices == IF Palettes = {} THEN Kinds ELSE {KindOf(pal, clock + 1)}
 
@@ -446,17 +524,17 @@ KindChoices == IF Palettes = {} THEN Kinds ELSE {KindOf(pal, clock + 1)}
 Enc ==
     /\ fileEnabled /\ batch = <<>> /\ ~flushPending
     /\ batch' = mem /\ mem' = <<>>
-    /\ UNCHANGED <<cur, rot, flushPending, memSize, fileEnabled, enabled, anon, ign, clock, pal, recorded, inScope, lastReply>>
+    /\ UNCHANGED <<cur, rot, flushPending, memSize, fileEnabled, enabled, anon, ign, clock, pal, flight, recorded, inScope, lastReply>>
 
 AutoEnc ==
     /\ AllowWindow /\ flushPending /\ batch = <<>>
     /\ batch' = mem /\ mem' = <<>> /\ flushPending' = FALSE
-    /\ UNCHANGED <<cur, rot, memSize, fileEnabled, enabled, anon, ign, clock, pal, recorded, inScope, lastReply>>
+    /\ UNCHANGED <<cur, rot, memSize, fileEnabled, enabled, anon, ign, clock, pal, flight, recorded, inScope, lastReply>>
 
 App ==
     /\ batch # <<>>
     /\ cur' = cur \o batch /\ batch' = <<>>
-    /\ UNCHANGED <<mem, rot, flushPending, memSize, fileEnabled, enabled, anon, ign, clock, pal, recorded, inScope, lastReply>>
+    /\ UNCHANGED <<mem, rot, flushPending, memSize, fileEnabled, enabled, anon, ign, clock, pal, flight, recorded, inScope, lastReply>>
 
 (* I/O fault: the file cannot be written when the second half of a flush    *)
 (* runs (flushToFile returns an error; nothing reaches the file).  The      *)
@@ -475,7 +553,7 @@ Without(seq, gone) == SelectSeq(seq, LAMBDA x : \A i \in DOMAIN gone : gone[i].t
 AppFails ==
     /\ batch # <<>> /\ batch' = <<>>
     /\ recorded' = Without(recorded, batch)
-    /\ UNCHANGED <<mem, cur, rot, flushPending, memSize, fileEnabled, enabled, anon, ign, clock, pal, inScope, lastReply>>
+    /\ UNCHANGED <<mem, cur, rot, flushPending, memSize, fileEnabled, enabled, anon, ign, clock, pal, flight, inScope, lastReply>>
 
 (* The same fault in the flush that Add requested (both halves at once, as  *)
 (* AutoFlush).                                                              *)
@@ -483,25 +561,25 @@ AutoFlushFails ==
     /\ ~AllowWindow /\ flushPending /\ batch = <<>> /\ mem # <<>>
     /\ flushPending' = FALSE
     /\ mem' = <<>> /\ recorded' = Without(recorded, mem)
-    /\ UNCHANGED <<cur, rot, batch, memSize, fileEnabled, enabled, anon, ign, clock, pal, inScope, lastReply>>
+    /\ UNCHANGED <<cur, rot, batch, memSize, fileEnabled, enabled, anon, ign, clock, pal, flight, inScope, lastReply>>
 
 (* A failed explicit flush with nothing in between; used by the trace spec. *)
 FlushFails ==
     /\ fileEnabled /\ batch = <<>> /\ ~flushPending /\ mem # <<>>
     /\ mem' = <<>> /\ recorded' = Without(recorded, mem)
-    /\ UNCHANGED <<cur, rot, batch, flushPending, memSize, fileEnabled, enabled, anon, ign, clock, pal, inScope, lastReply>>
+    /\ UNCHANGED <<cur, rot, batch, flushPending, memSize, fileEnabled, enabled, anon, ign, clock, pal, flight, inScope, lastReply>>
 
 (* Both halves of an explicit flush with nothing in between (what a caller   *)
 (* of flushLogBuffer sees); used by the trace spec.                         *)
 Flush ==
     /\ fileEnabled /\ batch = <<>> /\ ~flushPending
     /\ cur' = cur \o mem /\ mem' = <<>>
-    /\ UNCHANGED <<rot, batch, flushPending, memSize, fileEnabled, enabled, anon, ign, clock, pal, recorded, inScope, lastReply>>
+    /\ UNCHANGED <<rot, batch, flushPending, memSize, fileEnabled, enabled, anon, ign, clock, pal, flight, recorded, inScope, lastReply>>
 
 AutoFlush ==
     /\ ~AllowWindow /\ flushPending /\ batch = <<>>
     /\ cur' = cur \o mem /\ mem' = <<>> /\ flushPending' = FALSE
-    /\ UNCHANGED <<rot, batch, memSize, fileEnabled, enabled, anon, ign, clock, pal, recorded, inScope, lastReply>>
+    /\ UNCHANGED <<rot, batch, memSize, fileEnabled, enabled, anon, ign, clock, pal, flight, recorded, inScope, lastReply>>
 
 (* Rotate renames querylog.json to querylog.json.1; the previous rotated    *)
 (* file is aged out by being replaced.  "Rotation ageing out its file" is   *)
@@ -514,7 +592,7 @@ Rotate ==
        \/ cur = <<>> /\ UNCHANGED <<rot, cur>>
     /\ recorded' = IF rot' = rot THEN recorded
                    ELSE SelectSeq(recorded, LAMBDA x : \A i \in DOMAIN rot : rot[i].ts # x.ts)
-    /\ UNCHANGED <<mem, batch, flushPending, memSize, fileEnabled, enabled, anon, ign, clock, pal, inScope, lastReply>>
+    /\ UNCHANGED <<mem, batch, flushPending, memSize, fileEnabled, enabled, anon, ign, clock, pal, flight, inScope, lastReply>>
 
 (* RotateCheck: the periodic check (checkAndRotate: at start, then hourly)   *)
 (* rotates only when the oldest entry of the current file is older than the *)
@@ -529,11 +607,11 @@ Clear ==
     /\ batch = <<>>
     /\ mem' = <<>> /\ cur' = <<>> /\ rot' = <<>> /\ flushPending' = FALSE
     /\ recorded' = <<>> /\ inScope' = TRUE
-    /\ UNCHANGED <<batch, memSize, fileEnabled, enabled, anon, ign, clock, pal, lastReply>>
+    /\ UNCHANGED <<batch, memSize, fileEnabled, enabled, anon, ign, clock, pal, flight, lastReply>>
 
 SetConf(en, an, ig) ==
     /\ enabled' = en /\ anon' = an /\ ign' = ig
-    /\ UNCHANGED <<mem, cur, rot, batch, flushPending, memSize, fileEnabled, clock, pal, recorded, inScope, lastReply>>
+    /\ UNCHANGED <<mem, cur, rot, batch, flushPending, memSize, fileEnabled, clock, pal, flight, recorded, inScope, lastReply>>
 
 (* Restart: Shutdown flushes the ring if a file is configured; the new      *)
 (* instance starts with an empty ring of the (possibly new) size.  Without  *)
@@ -545,7 +623,7 @@ Restart(m) ==
     /\ cur' = IF fileEnabled THEN cur \o mem ELSE cur
     /\ recorded' = IF fileEnabled THEN recorded
                    ELSE SelectSeq(recorded, LAMBDA x : \A i \in DOMAIN mem : mem[i].ts # x.ts)
-    /\ UNCHANGED <<rot, batch, fileEnabled, enabled, anon, ign, clock, pal, inScope, lastReply>>
+    /\ UNCHANGED <<rot, batch, fileEnabled, enabled, anon, ign, clock, pal, flight, inScope, lastReply>>
 
 (* Search never changes the log.  A reply is any admissible one; for a      *)
 (* well-formed request that is a single value.                              *)
@@ -580,11 +658,16 @@ SearchParams ==
 -----------------------------------------------------------------------------
 (* Edge and observation emission for direction A.                           *)
 
-St(m, c, r, b, fp, ms, fe, en, an, ig, ck, pl) ==
+St(m, c, r, b, fp, ms, fe, en, an, ig, ck, pl, fl) ==
     [mem |-> Ids(m), cur |-> Ids(c), rot |-> Ids(r), batch |-> Ids(b), fp |-> fp, ms |-> ms,
-     fe |-> fe, en |-> en, an |-> an, ig |-> ig, ck |-> ck, pal |-> pl]
-Here  == St(mem, cur, rot, batch, flushPending, memSize, fileEnabled, enabled, anon, ign, clock, pal)
-There == St(mem', cur', rot', batch', flushPending', memSize', fileEnabled', enabled', anon', ign', clock', pal')
+     fe |-> fe, en |-> en, an |-> an, ig |-> ig, ck |-> ck, pal |-> pl,
+     fl |-> [i \in DOMAIN fl |-> fl[i].tick],
+     \* what the stored entries are (an entry that carries the tick of its Push
+     \* is not the entry a whole Add at that tick would have recorded)
+     attr |-> LET all == r \o c \o b \o m IN [i \in DOMAIN all |-> <<all[i].name, all[i].cli, all[i].reason>>]]
+Here  == St(mem, cur, rot, batch, flushPending, memSize, fileEnabled, enabled, anon, ign, clock, pal, flight)
+There == St(mem', cur', rot', batch', flushPending', memSize', fileEnabled', enabled', anon', ign', clock', pal',
+            flight')
 
 Edge(act, args) ==
     EmitEdges => PrintT(<<"@@V", ToJson([k |-> "e", src |-> Here, act |-> act, args |-> args, dst |-> There])>>)
@@ -600,10 +683,14 @@ Sigs(p) ==
     (IF SkipSigApplies(p) THEN << <<"skip", SkipSigReply(p).data, SkipSigReply(p).oldest>> >> ELSE <<>>)
     \o (IF EscSigApplies(p) THEN << <<"esc", EscSigReply(p).data, EscSigReply(p).oldest>> >> ELSE <<>>)
     \o (IF FoldSigApplies(p) THEN << <<"fold", FoldSigReply(p).data, FoldSigReply(p).oldest>> >> ELSE <<>>)
+    \o InvSigs(p)
 WindowSigs(p) ==
     (IF EscSigApplies(p) THEN << <<"esc", Ids(Sel(p, EscLog(p))), 0>> >> ELSE <<>>)
     \o (IF FoldSigApplies(p) THEN << <<"fold", Ids(Sel(p, FoldLog(p))), 0>> >> ELSE <<>>)
     \o (IF HiddenOnDisk # <<>> THEN << <<"hid", HiddenOnDisk, 0>> >> ELSE <<>>)
+    \* stores out of timestamp order: the scan follows the order of storage
+    \* (any reply that draws from the selected sequence)
+    \o (IF MaxFlight # 0 /\ ~TsSorted(RawLog) THEN << <<"invwin", Ids(Sel(p, Log)), 0>> >> ELSE <<>>)
 (* alts: the other admissible answers (entries of an ignored name shown).   *)
 Q(p) ==
     IF WellFormed(p, Log)
@@ -676,7 +763,7 @@ Observation ==
       win    |-> SetToSeq({QW(PS(0, x[2], x[3][1], x[3][2], x[1])) : x \in ReplayedWindows}) ]
 
 Observe ==
-    /\ EmitEdges /\ batch = <<>> /\ ~flushPending
+    /\ EmitEdges /\ batch = <<>> /\ ~flushPending /\ flight = <<>>
     /\ PrintT(<<"@@V", ToJson([k |-> "o", st |-> Here, obs |-> Observation])>>)
     /\ UNCHANGED vars
 
@@ -686,14 +773,19 @@ Observe ==
 (* them was never taken).  While an automatic flush is pending, calls other *)
 (* than the flush itself are only explored when the exclusion window is     *)
 (* (AllowWindow).                                                           *)
-Calm == AllowWindow \/ ~flushPending
+Calm == (AllowWindow \/ ~flushPending) /\ flight = <<>>
 
 DoRec ==
     \E k \in KindChoices :
         /\ RecordE(KindTable[k].name, KindTable[k].cli, KindTable[k].reason)
         /\ Edge("rec", [kind |-> k])
-DoEnc       == Enc /\ Edge("enc", [x |-> 0])
-DoApp       == App /\ Edge("app", [x |-> 0])
+DoStamp ==
+    \E k \in KindChoices :
+        /\ Stamp(KindTable[k].name, KindTable[k].cli, KindTable[k].reason)
+        /\ Edge("stamp", [kind |-> k])
+DoPush      == \E i \in DOMAIN flight : Push(i) /\ Edge("push", [i |-> i])
+DoEnc       == flight = <<>> /\ Enc /\ Edge("enc", [x |-> 0])
+DoApp       == flight = <<>> /\ App /\ Edge("app", [x |-> 0])
 DoAutoFlush == AutoFlush /\ Edge("autoflush", [x |-> 0])
 DoAppFails  == Faults /\ AppFails /\ Edge("appfail", [x |-> 0])
 DoAutoFlushFails == Faults /\ AutoFlushFails /\ Edge("autoflushfail", [x |-> 0])
@@ -712,7 +804,7 @@ DoRestart ==
 DoSearch == Quiescent /\ ~EmitEdges /\ (\E p \in SearchParams : SearchP(p))
 
 Next ==
-    \/ DoRec \/ DoEnc \/ AutoEnc \/ DoApp \/ DoAutoFlush \/ DoAppFails \/ DoAutoFlushFails
+    \/ DoRec \/ DoStamp \/ DoPush \/ DoEnc \/ AutoEnc \/ DoApp \/ DoAutoFlush \/ DoAppFails \/ DoAutoFlushFails
     \/ DoRotate \/ DoRotCheck \/ DoClear \/ DoConf \/ DoRestart
     \/ DoSearch \/ Observe
 
@@ -731,11 +823,12 @@ InForce == inScope /\ Quiescent
 
 (* Timestamps grow along the stores: memory is newer than the file, the     *)
 (* file newer than the rotated file.                                        *)
-Ordered == LET lg == Log IN \A i \in 1..(Len(lg) - 1) : lg[i].ts < lg[i + 1].ts
+Ordered == MaxFlight = 0 => LET lg == Log IN \A i \in 1..(Len(lg) - 1) : lg[i].ts < lg[i + 1].ts
 
 (* Nothing is lost or duplicated outside the exclusion window; each stored  *)
 (* entry is the recorded one, whole (PayloadPreserved).                     *)
-NothingLost      == InForce => Log = recorded
+SortedRec == IF MaxFlight = 0 THEN recorded ELSE SortSeq(recorded, LAMBDA a, b : a.ts < b.ts)
+NothingLost      == InForce => Log = SortedRec
 PayloadPreserved == InForce => LET lg == Log IN \A i \in DOMAIN lg : \E j \in DOMAIN recorded : recorded[j] = lg[i]
 
 (* Selection is per entry, so a filter acts on paging only through the set  *)
@@ -745,7 +838,7 @@ PayloadPreserved == InForce => LET lg == Log IN \A i \in DOMAIN lg : \E j \in DO
 AllFilters == FilterFamily \cup {<<"none", "none">>}
 
 (* The oracle, written on the ghost only.                                   *)
-Oracle(t, s) == SelectSeq(Reverse(recorded), LAMBDA e : TermMatches(t, e) /\ StatusMatches(s, e) /\ ~Hidden(e))
+Oracle(t, s) == SelectSeq(Reverse(SortedRec), LAMBDA e : TermMatches(t, e) /\ StatusMatches(s, e) /\ ~Hidden(e))
 
 (* SearchAll: an unrestricted search returns exactly the recorded entries   *)
 (* that satisfy the filters, each once, newest first.                       *)
@@ -786,8 +879,11 @@ WindowChainOK(c, l, t, s, k) ==
         r == MechReply(p)
     IN /\ Admissible(p, Log, Disk, r)
        /\ r.oldest # 0 => WindowChainOK(r.oldest, l, t, s, k)
+(* MechReply follows the order of storage, so this is stated for stores that *)
+(* are in timestamp order (the mechanism is the defect otherwise, see         *)
+(* InvSigs).                                                                  *)
 WindowPaging ==
-    InForce => \A f \in PagedFilters \cup {<<"nomatch", "none">>}, l \in PageSizes, k \in {1, 2, 3} :
+    InForce /\ TsSorted(RawLog) => \A f \in PagedFilters \cup {<<"nomatch", "none">>}, l \in PageSizes, k \in {1, 2, 3} :
         /\ WindowPages(0, l, f[1], f[2], k) = Ids(Oracle(f[1], f[2]))
         /\ WindowChainOK(0, l, f[1], f[2], k)
 
@@ -807,5 +903,5 @@ NoParameterCrashes ==
 LastReplyOK == lastReply.st \in {"none", "ok", "bad_request"}
 
 (* For QueryLog.window.cfg only: the statement's exclusion is necessary.    *)
-NothingLostEvenInWindow == Quiescent => Log = recorded
+NothingLostEvenInWindow == Quiescent => Log = SortedRec
 =============================================================================
